@@ -109,7 +109,9 @@ static void checkFitsInC3dFormat(const ezc3d::c3d& c3d)
             if (param.type() == ezc3d::DATA_TYPE::BYTE)
                 for (size_t i = 0; i < param.valuesAsByte().size(); ++i)
                     fits = fits && param.valuesAsByte()[i] >= -128 && param.valuesAsByte()[i] <= 127;
-            size_t recordSize(7 + param.name().size() + dimension.size() + param.description().size()
+            // (a parameter of dimension [1] is written as a scalar, without dimension byte)
+            size_t nbDimensionBytes(dimension.size() == 1 && dimension[0] == 1 ? 0 : dimension.size());
+            size_t recordSize(7 + param.name().size() + nbDimensionBytes + param.description().size()
                               + nbValues * static_cast<size_t>(abs(static_cast<int>(param.type()))));
             if (!fits || recordSize > 65535)
                 throw std::range_error("Parameter " + group.name() + ":" + param.name() + " does not fit in the c3d format");
